@@ -25,6 +25,7 @@ import (
 	"math/big"
 	"net"
 	"net/url"
+	"sort"
 	"time"
 
 	"github.com/emmansun/gmsm/cfca"
@@ -49,9 +50,11 @@ type artefact struct {
 	wrap  func([]byte) []byte
 	tree  *derTree   // nil: not DER (raw encodings)
 	relen []relenPos // (element, length) pairs of the der-relength mutator, for the tier of the run
+	oidp  []oidPos   // positions of the der-oid mutator
 }
 
 type world struct {
+	oids [][]byte // content octets of every OID known to the run, sorted (der-oid mutator)
 	seed uint64
 	rnd  io.Reader
 	arts map[string]*artefact
@@ -212,7 +215,48 @@ func buildWorld(seed uint64) (w *world, err error) {
 	w.buildCFCA()
 	w.buildSM9()
 	w.buildPadding()
+	w.harvestOIDs()
 	return w, nil
+}
+
+// harvestOIDs collects every distinct OID of the seed artefacts and the identifiers the library exports.
+func (w *world) harvestOIDs() {
+	set := map[string]bool{}
+	for _, a := range w.list {
+		if a.tree == nil {
+			continue
+		}
+		for _, n := range a.tree.flat {
+			if len(n.tag) == 1 && n.tag[0] == 0x06 && len(n.body) > 0 {
+				set[string(n.body)] = true
+			}
+		}
+	}
+	lib := []asn1.ObjectIdentifier{pkcs7.OIDData, pkcs7.OIDSignedData, pkcs7.OIDEnvelopedData, pkcs7.OIDSignedEnvelopedData, pkcs7.OIDDigestData,
+		pkcs7.OIDEncryptedData, pkcs7.OIDAttributeContentType, pkcs7.OIDAttributeMessageDigest, pkcs7.OIDAttributeSigningTime,
+		pkcs7.OIDDigestAlgorithmSHA1, pkcs7.OIDDigestAlgorithmSHA256, pkcs7.OIDDigestAlgorithmSHA384, pkcs7.OIDDigestAlgorithmSHA512,
+		pkcs7.OIDDigestAlgorithmDSA, pkcs7.OIDDigestAlgorithmDSASHA1, pkcs7.OIDDigestAlgorithmECDSASHA1, pkcs7.OIDDigestAlgorithmECDSASHA256,
+		pkcs7.OIDDigestAlgorithmECDSASHA384, pkcs7.OIDDigestAlgorithmECDSASHA512, pkcs7.OIDEncryptionAlgorithmRSA,
+		pkcs7.OIDEncryptionAlgorithmRSASHA1, pkcs7.OIDEncryptionAlgorithmRSASHA256, pkcs7.OIDEncryptionAlgorithmRSASHA384,
+		pkcs7.OIDEncryptionAlgorithmRSASHA512, pkcs7.OIDEncryptionAlgorithmECDSAP256, pkcs7.OIDEncryptionAlgorithmECDSAP384,
+		pkcs7.OIDEncryptionAlgorithmECDSAP521, pkcs7.SM2OIDData, pkcs7.SM2OIDSignedData, pkcs7.SM2OIDEnvelopedData,
+		pkcs7.SM2OIDSignedEnvelopedData, pkcs7.SM2OIDEncryptedData, pkcs7.OIDDigestAlgorithmSM3, pkcs7.OIDDigestAlgorithmSM2SM3,
+		pkcs7.OIDDigestEncryptionAlgorithmSM2, pkcs7.OIDKeyEncryptionAlgorithmSM2, pkcs7.SM9OIDData, pkcs7.SM9OIDSignedData,
+		pkcs7.SM9OIDEnvelopedData, pkcs7.SM9OIDSignedEnvelopedData, pkcs7.SM9OIDEncryptedData, pkcs7.OIDDigestAlgorithmSM9SM3,
+		pkcs7.OIDDigestEncryptionAlgorithmSM9, pkcs7.OIDKeyEncryptionAlgorithmSM9}
+	for _, c := range []pkcs.Cipher{pkcs.SM4, pkcs.SM4CBC, pkcs.SM4ECB, pkcs.SM4GCM, pkcs.AES128CBC, pkcs.AES192CBC, pkcs.AES256CBC, pkcs.AES128GCM,
+		pkcs.AES192GCM, pkcs.AES256GCM, pkcs.DESCBC, pkcs.TripleDESCBC} {
+		lib = append(lib, c.OID())
+	}
+	for _, o := range lib {
+		if b, err := asn1.Marshal(o); err == nil && len(b) > 2 {
+			set[string(b[2:])] = true
+		}
+	}
+	for k := range set {
+		w.oids = append(w.oids, []byte(k))
+	}
+	sort.Slice(w.oids, func(i, j int) bool { return bytes.Compare(w.oids[i], w.oids[j]) < 0 })
 }
 
 func (w *world) buildSM2() {
